@@ -57,7 +57,7 @@ class CollectionValue(GenericValue):
 
             if (
                 old_node is not None
-                and self._file._token_of_node(old_node) != new_token
+                and self._file._token_differ(old_node, new_token)
             ):
                 new_code = self._file._token_to_code(new_token)
 
